@@ -319,6 +319,10 @@ UNKNOWN_NAMES = ["not_a_setting_or_option", "my_param", "plot_foo", "align",
 # ------------------------------------------------------------------ model
 def conv(tok):
     try:
+        return int(tok)  # exact, also beyond 2**53
+    except ValueError:
+        pass
+    try:
         f = float(tok)
     except ValueError:
         return tok
@@ -503,7 +507,9 @@ class OptionAlphabet:
                   "runs/seed=3/ape.pdf", "k=v=w.zip", "my plot.png",
                   "a,b.csv", "tr\u00e4j.zip", "./x:y.json", "50%.txt",
                   "@home.txt", "x=-1.zip"]
-    INT_VALUES = ["0", "1", "5", "500", "12", "1000", "+7", "007"]
+    INT_VALUES = ["0", "1", "5", "500", "12", "1000", "+7", "007",
+                  # not representable as a double
+                  "9007199254740993", "123456789012345678"]
     NEG_INT_VALUES = ["-1", "-3", "-10"]
     FLOAT_VALUES = ["0.5", "5", "1e-3", "2.5e2", "0", "100.0", "0.01", "3",
                     "1.25", ".5", "5.", "1e+2", "+2.5", "1.4e+09", "2E3",
